@@ -108,7 +108,11 @@ def eigAll (G : Gr) (x : Nat → Rat) : String :=
 (`Model/NsiComp.lean`) on any undirected network: the component lists, the six argument patterns
 through the component loop with copy-back, and the flag "the loop stores at every node the value
 of its own component's sub-network at its position there" (`perNode`; round 5c: proved for every
-undirected network, `per_component_loop_eq_per_node` — the flag is a cross-check only). -/
+undirected network, `per_component_loop_eq_per_node` — the flag is a cross-check only).
+Round 5d: the flag `csolves` — the Gauss–Jordan grounded inverse of every component with at least
+two nodes satisfies `SolvesL` / `SolvesR` exactly (the only hypotheses of
+`nsi_newman_wrapped_split_checked`; the Arenas wrapper needs none, its solves are verified inside
+`arenasAll`). -/
 def compAll (G : Gr) : String :=
   let idx := List.range G.n
   let opt (o : Option (List Rat)) : String := match o with | some l => showRats l | none => "singular"
@@ -132,10 +136,15 @@ def compAll (G : Gr) : String :=
   let ok := agree n0 (sgl false) (fN false) && agree n1 (sgl true) (fN true) &&
     agree a1 (fun _ => 0) (fA false true) && agree a2 (fun _ => 0) (fA false false) &&
     agree a3 (fun _ => 0) (fA true true) && agree a4 (fun _ => 0) (fA true false)
+  -- round 5d: the hypotheses of `nsi_newman_wrapped_split_checked` (exact check of SolvesL /
+  -- SolvesR for the Gauss–Jordan inverse of every component with at least two nodes)
+  let csolves := (compList G).all fun nodes =>
+    decide (nodes.length < 2) || newmanSolves (subGr G nodes)
   "comps=" ++ join ((compList G).map showNats) ";" ++
     "|newman=" ++ opt n0 ++ "|newman_ends=" ++ opt n1 ++
     "|arenas=" ++ opt a1 ++ "|arenas_incl=" ++ opt a2 ++ "|arenas_twin=" ++ opt a3 ++
-    "|arenas_incl_twin=" ++ opt a4 ++ "|pernode=" ++ (if ok then "1" else "0")
+    "|arenas_incl_twin=" ++ opt a4 ++ "|pernode=" ++ (if ok then "1" else "0") ++
+    "|csolves=" ++ (if csolves then "1" else "0")
 
 def answer (toks : List String) : String :=
   match toks with
